@@ -1,5 +1,6 @@
 """C14 - every started node is stopped exactly once, in reverse order, whatever fails (fault enumeration)."""
 from __future__ import annotations
+import random
 import copy
 from .runner import Result, Violation, scaled
 from .gen_core import gen_case
@@ -120,9 +121,48 @@ def add_dynamic_children(rng, base):
     return extra
 
 
+def sweep_cases(rng, seed, n):
+    """Constructed: a keyed map / a reduction with SEVERAL child graphs alive at shutdown (keys only ever arrive) and the k-th
+    child stop throwing, k = 1..3 - the shutdown sweep must go on over the remaining children (F17 / F19 family)."""
+    from .prog import Case, S
+    out = []
+    for j in range(n):
+        kind = ("map", "reduce")[j % 2]
+        nk = rng.choice([3, 4, 5, 6])
+        c = Case(f"c14_{seed}_sweep{j}", 0, 12)
+        keys = rng.sample(range(9), nk)
+        hist = {}
+        for q, k in enumerate(keys):
+            # (a reduction that grows over several cycles retires combiners mid-run: that is F15's call site, not the sweep)
+            hist.setdefault(1 if kind == "reduce" else 1 + (q % rng.choice([1, 2, 3])), []).append(f"[{k}]={k * 1000 + q}")
+        c.cscripts[1] = [f"{t}|" + ",".join(ops) for t, ops in sorted(hist.items())] + [f"8|[{keys[0]}]=5"]
+        if kind == "map":
+            c.graphs["fn0"] = [S("e", "pass", "p0", uid=10), S("a", "acc", "e", uid=11), S("", "RET", "a")]
+            c.graphs["main"] = [S("d", "csrc", shape="tsd", uid=1), S("m", "map", "d", fn="fn1:0"), S("", "cmirror", "m", uid=20)]
+            uids = [10, 11]
+        else:
+            c.graphs["fn1"] = [S("x", "sum2", "p0", "p1"), S("y", "pass", "x", uid=10), S("", "RET", "y")]
+            c.graphs["main"] = [S("d", "csrc", shape="tsd", uid=1), S("r", "reduce", "d", fn="fn2:1"), S("", "rec", "r", uid=20)]
+            c.meta["reduce_uids"] = [10]
+            uids = [10]
+        c.meta["dynamic"] = True
+        k = 0
+        for u in uids:
+            for occ in (1, 2, 3):
+                for cleanup in (1, 0):
+                    cc = copy.deepcopy(c)
+                    cc.name = f"{c.name}_f{k}"
+                    k += 1
+                    cc.faults = [(u, "stop", occ)]
+                    cc.opts["cleanup"] = cleanup
+                    cc.meta["plan"] = [[u, "stop", occ]]
+                    out.append(cc)
+    return out
+
+
 def generate(rng, tier, seed):
     nprog = scaled(30 if tier == "quick" else 300)
-    cases = []
+    cases = sweep_cases(random.Random(f"c14sweep/{seed}/{tier}"), seed, 4 if tier == "quick" else 40)
     for p in range(nprog):
         base = gen_case(rng, f"c14_{seed}_{p}", n_nodes=rng.choice([2, 3, 5, 8]), max_depth=2,
                         nested_only="nested" if rng.random() < 0.6 else None)
